@@ -5,6 +5,7 @@ package plugin
 
 import (
 	"encoding/json"
+	"fmt"
 	"time"
 )
 
@@ -45,6 +46,16 @@ func parseJSON(input []byte) (*logEntry, error) {
 	}
 
 	// Parse hclog-specific objects
+	// The hclog fields must be strings: anything else is not an hclog entry
+	// (and must not reach the type assertions below).
+	for _, k := range []string{"@message", "@level", "@timestamp"} {
+		if v, ok := raw[k]; ok {
+			if _, isString := v.(string); !isString {
+				return nil, fmt.Errorf("%s is not a string", k)
+			}
+		}
+	}
+
 	if v, ok := raw["@message"]; ok {
 		entry.Message = v.(string)
 		delete(raw, "@message")
